@@ -249,8 +249,8 @@ class TranslatorSMT2(Translator):
             op = bvand(src, bvshl(one_smt2, bvsub(size_smt2, one_smt2)))
             # op != 0
             cond = smt2_distinct(op, zero_smt2)
-            # ite(cond, size - 1, src)
-            res = smt2_ite(cond, bvsub(size_smt2, one_smt2), src)
+            # ite(cond, size - 1, size)
+            res = smt2_ite(cond, bvsub(size_smt2, one_smt2), size_smt2)
             for i in range(size - 2, -1, -1):
                 # smt2 expression of i
                 i_smt2 = bit_vec_val(i, size)
@@ -263,12 +263,13 @@ class TranslatorSMT2(Translator):
         elif expr.op == "cntleadzeros":
             src = res
             size = expr.size
+            size_smt2 = bit_vec_val(size, size)
             one_smt2 = bit_vec_val(1, size)
             zero_smt2 = bit_vec_val(0, size)
             # (src & 1) != 0
             cond = smt2_distinct(bvand(src, one_smt2), zero_smt2)
-            # ite(cond, 0, src)
-            res= smt2_ite(cond, zero_smt2, src)
+            # ite(cond, size - 1, size)
+            res= smt2_ite(cond, bvsub(size_smt2, one_smt2), size_smt2)
             for i in range(size - 1, 0, -1):
                 index = - i % size
                 index_smt2 = bit_vec_val(index, size)
